@@ -577,10 +577,19 @@ func recordShare(r *hk.Run, o shareObs) {
 		fail("harness", "the scripted scenario could not be played: "+o.Harness)
 	} else {
 		want := map[string]string{"cancel": "cause:canceled", "deadline": "cause:deadline", "deadline-timer": "cause:deadline"}[o.Spec.Kind]
-		if o.A != want {
+		if o.Spec.EndB {
+			if o.B == "hang" {
+				fail("hang", fmt.Sprintf("a request waiting for a connection that another request is dialling did not return within %v of the end of its own context", returnBound))
+			} else if o.B != want {
+				fail("wrong-error", "the request whose context ended while it waited for another request's dial ended as "+o.B+" "+o.BErr)
+			}
+			if o.A != "nil" {
+				fail("bystander-failed", "the request that owned the dial ended as "+o.A+" "+o.AErr)
+			}
+		} else if o.A != want {
 			fail("wrong-error", "the request whose context ended during the dial ended as "+o.A+" "+o.AErr)
 		}
-		if o.B != "nil" {
+		if !o.Spec.EndB && o.B != "nil" {
 			fail("bystander-failed", fmt.Sprintf("a second request that had joined the pending dial, with a context of its own that was alive, ended as %s: %s", o.B, o.BErr))
 		}
 		if len(o.Leaked) > 0 {
@@ -589,7 +598,7 @@ func recordShare(r *hk.Run, o shareObs) {
 	}
 	r.Count("share:" + o.Spec.Stack + ":" + o.Spec.Kind)
 	coq := ""
-	if o.Harness == "" && o.Joined {
+	if o.Harness == "" && o.Joined && !o.Spec.EndB {
 		c := map[string]string{"cancel": "CCanceled", "deadline": "CDeadline", "deadline-timer": "CDeadline"}[o.Spec.Kind]
 		coq = fmt.Sprintf("ShareCase %s %s", c, hk.CoqBool(o.B == "nil"))
 	}
